@@ -14,6 +14,9 @@
     ambient pseudo-random generators interleaved with sign calls, MC_EcdsaEnv model-checks them); each is replayed with
     random.seed / numpy.random.seed, getstate / setstate and os.fork around real sign calls and the recorded r, s are judged
     by TLC (`envgen`, `envtrace`).
+(G) object: TLC enumerates the call sequences of spec/EcdsaObj.tla on one Signature object (verify with given / omitted
+    digest and key, public_key / txid assignments; MC_EcdsaObj model-checks the judge); each is replayed on real objects and
+    the verdicts together with the key / digest the object reported before each call are judged by TLC (`objgen`, `objtrace`).
 Python only generates inputs, transports values and evaluates the primitives (harness/ref.py).
 """
 import itertools
@@ -334,8 +337,10 @@ def _do_obj(job):
         facts[signer] = [[bool(c13_ec.ecdsa_verify(c13_ec.mul_G(ds[k]), int.from_bytes(zs[z], 'big'), int(sg.r), int(sg.s)))
                           for z in (1, 2)] for k in (1, 2)]
 
+    forms = {i: [pubs[i], Key(pubs[i]), HDKey(pubs[i]), ref.ser_point(c13_ec.mul_G(ds[i]), False)] for i in (1, 2)}
+
     def keyarg(i, n):       # the key in one of the forms the API takes
-        return [pubs[i], Key(pubs[i]), HDKey(pubs[i]), ref.ser_point(c13_ec.mul_G(ds[i]), False)][n % 4]
+        return forms[i][n % 4]
 
     def zarg(i, n):
         return [zs[i], zs[i].hex()][n % 2]
